@@ -103,8 +103,13 @@ impl<T: Ord> MemoryBoundedQueue<T> {
     pub fn push(&self, item: T, size_bytes: usize) -> Result<(), PushError> {
         let mut inner = self.inner.lock().unwrap();
 
-        // Wait while queue would be too full
-        while inner.current_size + size_bytes > self.capacity_bytes && !inner.closed {
+        // Wait while queue would be too full. An item larger than the whole capacity can
+        // never fit, so it is admitted as soon as no bytes are queued (waiting could not
+        // make room for it and would block forever).
+        while inner.current_size + size_bytes > self.capacity_bytes
+            && inner.current_size > 0
+            && !inner.closed
+        {
             #[cfg(ragc_verif)]
             self.verif_event("push_wait", &inner, size_bytes, u64::MAX);
             inner = self.not_full.wait(inner).unwrap();
